@@ -431,6 +431,14 @@ Proof.
   now rewrite <- app_assoc.
 Qed.
 
+Lemma flat_map_map {A B C} (f : B -> list C) (g : A -> B) (l : list A) :
+  flat_map f (map g l) = flat_map (fun x => f (g x)) l.
+Proof. induction l as [|x l IH]; cbn; [reflexivity|]. now rewrite IH. Qed.
+
+Lemma map_flat_map' {A B C} (f : B -> C) (g : A -> list B) (l : list A) :
+  map f (flat_map g l) = flat_map (fun x => map f (g x)) l.
+Proof. induction l as [|x l IH]; cbn; [reflexivity|]. now rewrite map_app, IH. Qed.
+
 Lemma keys_block chain ib :
   keys (block_items chain ib) = map (app [3; fst ib]) (rk_block (snd ib)).
 Proof.
@@ -438,8 +446,9 @@ Proof.
   cbn [keys map fst key]. f_equal. fold (keys).
   rewrite map_app_fam. cbn [flat_map fst snd]. rewrite app_nil_r.
   rewrite !keys_app, !keys_ochecks, keys_flat_map. cbn [key app].
-  f_equal. f_equal. f_equal. f_equal; [|reflexivity].
-  rewrite map_app_fam. rewrite flat_map_concat_map, map_map, <- flat_map_concat_map.
+  do 4 (f_equal; try reflexivity).
+  change (fun m : list nat => 3 :: i :: 3 :: m) with (app [3; i; 3]).
+  rewrite map_app_fam, flat_map_map.
   apply flat_map_ext. intros iq. cbn [fst snd]. apply keys_seq.
 Qed.
 
@@ -448,9 +457,8 @@ Proof.
   unfold plan_items, rk_plan. cbn [keys map fst key]. f_equal. fold (keys).
   rewrite !keys_app, !keys_ochecks, keys_flat_map. cbn [key app].
   unfold fam at 1. cbn [flat_map fst snd]. rewrite app_nil_r.
-  f_equal. f_equal. f_equal. f_equal; [|reflexivity].
-  unfold fam. rewrite flat_map_concat_map, map_map, <- flat_map_concat_map.
-  rewrite flat_map_concat_map, map_map, <- flat_map_concat_map.
-  apply flat_map_ext. intros ib. cbn [fst snd]. rewrite keys_block.
+  do 4 (f_equal; try reflexivity).
+  unfold fam. rewrite flat_map_map, map_flat_map'.
+  apply flat_map_ext. intros ib. cbn [fst snd]. rewrite keys_block, map_map.
   apply map_ext. reflexivity.
 Qed.
